@@ -29,8 +29,9 @@ OOR = {
 KINDNAME = {"reg": "register-index", "imm8": "imm8", "int32": "int32"}
 
 
-def judge(route: str, what: str, sub, flav: str, case, part) -> None:
-    """sub: a Subroutine object holding the requested (unrepresentable) program."""
+def judge(route: str, what: str, sub, flav: str, case, part, requested_app_id=None) -> None:
+    """sub: a Subroutine object holding the requested (unrepresentable) program.  requested_app_id: the app id that was
+    asked for, when it may differ from what the object now holds."""
     from netqasm.lang.parsing.binary import deserialize
     try:
         raw = bytes(sub)
@@ -42,7 +43,8 @@ def judge(route: str, what: str, sub, flav: str, case, part) -> None:
     except Exception:
         count(part, f"undecodable/{route}/{what}")   # bytes that nothing accepts: not a *valid-looking* program
         return
-    same = (dec.instructions == sub.instructions and dec.app_id == sub.app_id
+    want_app = sub.app_id if requested_app_id is None else requested_app_id
+    same = (dec.instructions == sub.instructions and dec.app_id == want_app
             and tuple(dec.netqasm_version) == tuple(sub.netqasm_version))
     if same:
         count(part, f"represented/{route}/{what}")
@@ -110,7 +112,7 @@ def shard_header(shard):
             part["distinct"] += 1
             instr = codec.make_instr(cls, ["reg", "int32"], [(0, 1), 5])
             # three ways an app id reaches the header: constructor, property setter, instantiate()
-            for how in ("constructor", "setter", "instantiate"):
+            for how in ("constructor", "setter", "instantiate", "instantiate-over-valid-id"):
                 part["evals"] += 1
                 part["distinct"] += 1
                 case = {"route": "direct", "header": "app_id", "how": how, "app_id": app_id, "version": list(ver)}
@@ -120,13 +122,16 @@ def shard_header(shard):
                     elif how == "setter":
                         sub = Subroutine(instructions=[instr], app_id=1, netqasm_version=ver)
                         sub.app_id = app_id
-                    else:
+                    elif how == "instantiate":
                         sub = Subroutine(instructions=[instr], app_id=None, netqasm_version=ver)
+                        sub.instantiate(app_id, {})
+                    else:
+                        sub = Subroutine(instructions=[instr], app_id=7, netqasm_version=ver)
                         sub.instantiate(app_id, {})
                 except Exception:
                     count(part, "rejected/direct/app-id")
                     continue
-                judge("direct", "app-id", sub, "vanilla", case, part)
+                judge("direct", "app-id", sub, "vanilla", case, part, requested_app_id=app_id)
     for vb in (256, 257, 1000, -1, 2 ** 40):
         for pos in (0, 1):
             part["evals"] += 1
